@@ -30,9 +30,9 @@ func payload(m, n int) []byte {
 
 // c01Msg is one message to send: its bytes and how the sender cuts it.
 type c01Msg struct {
-	data  []byte
-	parts []int // lengths of the writes (sum = len(data)); empty => one write
-	flush uint  // typed sender: bit i set => FlushFrame(false) after part i
+	data       []byte
+	parts      []int // lengths of the writes (sum = len(data)); empty => one write
+	flush      uint  // typed sender: bit i set => FlushFrame(false) after part i
 	emptyFinal bool
 }
 
@@ -381,7 +381,7 @@ func composition(n int, mask uint) []int {
 func C01Plan() *vlib.Plan {
 	p := &vlib.Plan{
 		Property: "C01", Level: "exploration",
-		Rule: "E-ENUM: (a) every composition of every message length <= N into writes, every flush subset for the typed sender, x sender kind x receiver kind x {plain, AES-GCM} x {first, later frame position}; short sequences of 2-3 messages; (b) sizes T+d for T in {0,4096,16384,1MiB,2MiB}, |d|<=34, as one write and as two-write cuts. Non-trivial = sender accepted and at least one frame reached the receiver; IDs are distinct by construction.",
+		Rule:   "E-ENUM: (a) every composition of every message length <= N into writes, every flush subset for the typed sender, x sender kind x receiver kind x {plain, AES-GCM} x {first, later frame position}; short sequences of 2-3 messages; (b) sizes T+d for T in {0,4096,16384,1MiB,2MiB}, |d|<=34, as one write and as two-write cuts. Non-trivial = sender accepted and at least one frame reached the receiver; IDs are distinct by construction.",
 		Assume: []string{"payload byte pattern (i*131+m*17) mod 251 makes loss/duplication/reordering visible", "fixed AES key; IV random per stream"},
 	}
 	p.Gen = func(tier string, yield func(vlib.Case)) {
